@@ -39,4 +39,32 @@ def Closed (fs : List Face) : Prop := (dirEdges fs).Perm ((dirEdges fs).map Prod
 def closedB (fs : List Face) : Bool :=
   (dirEdges fs).all (fun e => (dirEdges fs).count e == (dirEdges fs).count (e.2, e.1))
 
+/-! ### partial revolve with caps (`angle < 2π`, `cap=True`): slices 0 .. `slices` are all present, nothing wraps -/
+
+def vidO (per i j : Nat) : Nat := j * per + i
+
+def sliceFacesO (per j : Nat) : List Face :=
+  (List.range (per - 1)).flatMap (fun i =>
+    (if i = 0 then [] else [(vidO per i j, vidO per i (j + 1), vidO per (i + 1) j)]) ++
+    (if i = per - 2 then [] else [(vidO per (i + 1) j, vidO per i (j + 1), vidO per (i + 1) (j + 1))]))
+
+def gridFacesO (per slices : Nat) : List Face := (List.range slices).flatMap (sliceFacesO per)
+
+def flipFace (t : Face) : Face := (t.2.2, t.2.1, t.1)
+
+/-- the face array `revolve` stacks: side walls, the cap triangulation `T` on slice 0, and the same triangles
+    shifted to the last slice and reversed (`np.fliplr(cap_0_faces + offset)`) -/
+def openRaw (per slices : Nat) (T : List Face) : List Face :=
+  gridFacesO per slices ++ T ++ (T.map (mapFace (· + slices * per))).map flipFace
+
+def openSurface (per slices : Nat) (T : List Face) : List Face := (openRaw per slices T).map (mapFace (ident per))
+
+/-- boundary of the profile polygon in profile order, closed along the axis -/
+def bd (n : Nat) : List (Nat × Nat) := (List.range n).map (fun i => (i, i + 1)) ++ [(n, 0)]
+
+/-- what the cap triangulation has to satisfy: its directed edges are the polygon boundary in profile order plus
+    interior edges in opposite pairs (stated without naming the interior edges, so that it is decidable) -/
+def capOk (n : Nat) (T : List Face) : Bool :=
+  ((dirEdges T).map Prod.swap ++ bd n).isPerm (dirEdges T ++ (bd n).map Prod.swap)
+
 end TV.RevolveGrid
